@@ -605,11 +605,14 @@ func c04YAMLCases(rng *RNG, c int) c04Case {
 	return c04Case{Kind: "veneers", Class: "veneers", Data: doc, Extra: ir}
 }
 
-func c04PipelineCases(rng *RNG) c04Case {
-	schema := `{"$schema":"http://json-schema.org/draft-07/schema#","definitions":{"A":{"type":"object","properties":{"x":{"type":"string"}}}},"type":"object","properties":{"a":{"$ref":"#/definitions/A"}}}`
+// c04PipelineVariants: pipeline documents over one schema with reference cycles (A → A, A → B → A, B → [B]).
+func c04PipelineVariants() (variants []string, schema string) {
+	schema = `{"$schema":"http://json-schema.org/draft-07/schema#","definitions":{"A":{"type":"object","properties":{"x":{"type":"string"},"next":{"$ref":"#/definitions/A"},"b":{"$ref":"#/definitions/B"}}},"B":{"type":"object","properties":{"a":{"$ref":"#/definitions/A"},"list":{"type":"array","items":{"$ref":"#/definitions/B"}}}},"C":{"type":"object","properties":{"y":{"type":"integer"}}}},"type":"object","properties":{"a":{"$ref":"#/definitions/A"}}}`
 	base := "inputs:\n  - jsonschema: {path: '@DIR@/schema.json', package: pk}\noutput:\n  directory: '@DIR@/out/%l'\n  types: true\n  builders: true\n  languages:\n    - go: {package_root: 'example.com/x'}\n    - typescript: {}\n"
-	variants := []string{
+	variants = []string{
 		base,
+		strings.Replace(base, "package: pk", "package: pk, allowed_objects: [A]", 1),
+		strings.Replace(base, "package: pk", "package: pk, allowed_objects: [B, C]", 1),
 		"inputs:\n  - {}\noutput: {directory: x, languages: [{go: {}}]}\n",
 		"inputs:\n  - jsonschema: {path: '@DIR@/schema.json'}\n    if: 'nope('\noutput: {directory: x, languages: [{}]}\n",
 		"inputs:\n  - jsonschema: {path: '@DIR@/schema.json', if: '1 + 1'}\noutput: {directory: '@DIR@/o', types: true, languages: [{go: {}}]}\n",
@@ -623,6 +626,11 @@ func c04PipelineCases(rng *RNG) c04Case {
 		"parameters: {a: '%b%', b: '%a%'}\ninputs:\n  - jsonschema: {path: '%a%'}\noutput: {directory: '%b%', languages: [{go: {}}]}\n",
 		strings.Replace(base, "directory: '@DIR@/out/%l'", "directory: '@DIR@/out/%l'\n  repository_templates: '@DIR@/nope'\n  templates_data: {a: b}", 1),
 	}
+	return variants, schema
+}
+
+func c04PipelineCases(rng *RNG) c04Case {
+	variants, schema := c04PipelineVariants()
 	doc := pick(rng, variants)
 	if rng.Chance(0.35) {
 		doc = string(mutateBytes(rng, []byte(doc)))
@@ -638,6 +646,10 @@ func c04Cases(r *Run) []c04Case {
 	}
 	for _, b := range c04Breakers() {
 		add(b)
+	}
+	pv, pschema := c04PipelineVariants()
+	for _, doc := range pv {
+		add(c04Case{Kind: "pipeline", Class: "pipeline", Data: doc, Extra: pschema})
 	}
 	// byte- and structure-level mutations of valid renderings
 	nm := r.n(420, 40000)
